@@ -62,3 +62,7 @@ chk("C14", "model_checking",
     "Stateless exploration by replay of the real REPEX_state with the real PathStorage on real files: every accept/reject outcome and every completion order up to depth n_ens+3 (one worker) / 4-6 (two workers), pick outcomes up to a deviation bound, x delete_old x delete_old_all x keep_traj_fnames; after every step every live path is re-loaded with the real load_path and compared frame by frame; initial paths are hashed; a FIFO reference model bounds when a replaced path's files may disappear.",
     "Trusted: accepted paths are written by the harness (two trajectory files, reversed frames, optional energies/aux files). Deviation-bounded in the pick outcomes (reported).",
     "stateless deviation-bounded exploration on the implementation with a file-ownership reference model", "DESIGN.md 4/C14")
+chk("C08", "fault_enumeration",
+    "Fault enumeration on the real REPEX_state + real PathStorage with real files under an interposed file system: for the last step of every scenario of up to 3 steps (outcomes and completion orders exhaustive, one pick deviation; delete_old variants; 1-2 workers; also after an earlier restart; a 6-step scenario that fires the deletion lag) the main process is killed after every counted effect (open-for-write, write, move, remove, rmdir, mkdir) and at torn prefixes of every write; the tree must restart through the real setup_config/setup_internal, live paths must have their files and non-zero weight, recorded in-flight jobs are re-issued first, and after replacing every live path once more every replaced path has exactly one data row.",
+    "Trusted: unbuffered-write crash model (plus torn prefixes); accepted paths written by the harness. Quick tier crashes only 4 occurrences of an effect repeated within a step (reported as a cap); thorough crashes after every effect.",
+    "exhaustive crash-point and torn-write enumeration on the implementation", "DESIGN.md 4/C08")
